@@ -60,6 +60,10 @@ def main():
         res["reach"]["decl:" + k] = res["reach"].get("decl:" + k, 0) + v
     res["reach"]["process_default:resource=%s,is_sequential=%s" % (getattr(_cfg.TAWAZI_DEFAULT_RESOURCE, "value", _cfg.TAWAZI_DEFAULT_RESOURCE),
                                                                    _cfg.TAWAZI_IS_SEQUENTIAL)] = 1
+    if jobs.PROFILE_SWITCHES[0]:
+        res["reach"]["config_profiles_switched_A_B_A_with_the_same_dict_objects"] = jobs.PROFILE_SWITCHES[0]
+    for k, v in _spec.SPELL_COUNTS.items():
+        res["reach"][k] = res["reach"].get(k, 0) + v
     for k, v in probes.FAULT_CLASS_COUNTS.items():
         res["reach"]["node_failure_class:" + k] = res["reach"].get("node_failure_class:" + k, 0) + v
     res["worker_wall_s"] = time.time() - t0
